@@ -16,6 +16,13 @@ from pyvc.loops import LoopSpec
 from pyvc.interp import Fn
 
 LEVEL = 'proof'
+LEVEL_TEXT = ('Proof for all seeds, lengths and splits: the real PRBS body is executed symbolically (BV64 register, symbolic int seed/len) for each of the '
+              '7 supported orders; the while loop is discharged through an inductive invariant against the ghost sequence S of the documented ITU '
+              'recurrence; period 2^n-1 / balance for all non-zero states (PRBS31 included) follow from a GF(2) certificate computed from the step '
+              'function extracted from the code. A bounded native cross-check against an independent reference guards the engine.')
+LEVEL_NOTE = ('trusted: z3 (bit-vector + integer VCs), the pyvc executor, the GF(2) matrix routine (cross-checked by polynomial arithmetic), the group-theory '
+              'lemma exact_period (Lean-checked in the thorough tier); the register is modelled as a 64-bit vector, exact below 2^62 (proved invariant)')
+TECHNIQUE = 'contract-based deductive verification (loop invariant + ghost recurrence, VCs from the real AST, z3) + GF(2) primitive-polynomial certificate'
 EXPLANATION = ('PRBS body executed symbolically for every supported order with symbolic seed and length; while-loop handled by an '
                'inductive invariant against the ghost sequence S defined from the documented ITU taps; period/balance by a GF(2) '
                'certificate (T^N = I, T^(N/q) - I non-singular for every prime q | N) computed from the step function extracted from the code')
